@@ -501,7 +501,7 @@ pub fn fixture(seed: u64, which: u64, tier: Tier, work: &std::path::Path) -> Res
         unique_keys: false,
     };
     let dir = DirCase { seed: rng.next(), vstores: vec![false, true], stores: vec![files], indexes: vec![IndexDef { name: "files".into(), store: 0, offset: 0, count: 600 }], defer: 0, free: 0 };
-    let case = ContCase { content, dir, pkg: Pkg::OneFile, extra: vec![], id_gap: 0 };
+    let case = ContCase { content, dir, pkg: Pkg::OneFile, extra: vec![], id_gap: 0, first_id: 1 };
     let scratch = Scratch::new(work, "c07fix");
     let created = create_container(&case, &scratch.dir, "c.jbk", Arc::new(()))?;
     let _ = std::fs::remove_dir_all(scratch.dir.join("inputs"));
@@ -536,6 +536,7 @@ pub fn gen(seed: u64, tier: Tier, k: u64) -> Value {
         "delay_seed": rng.next(),
         "delay_level": k % 4,
         "seed": seed,
+        "rayon_readers": mode == "container" && k % 2 == 1,
     })
 }
 
@@ -571,6 +572,44 @@ pub fn run(desc: &Value, ctx: &Ctx) -> CaseOut {
                     return;
                 }
             };
+            // readers that are workers of a rayon pool (a parallel iterator over contents, as an extractor would do): as many
+            // first reads of not-yet-decoded clusters at once as the pool has workers; decoding must not depend on one of them
+            if jbool(desc, "rayon_readers") {
+                use rayon::prelude::*;
+                let workers = 4usize;
+                if let Ok(pool) = rayon::ThreadPoolBuilder::new().num_threads(workers).build() {
+                    let big: Vec<usize> = (0..fx.addrs.len()).filter(|i| fx.expected[*i].len() >= 1_000_000).collect();
+                    let errs: Vec<String> = pool.install(|| {
+                        big.par_iter()
+                            .with_max_len(1)
+                            .filter_map(|i| {
+                                let r = (|| -> Result<(), String> {
+                                    let region = match container.get_bytes(fx.addrs[*i]).map_err(|e| format!("get_bytes: {e}"))? {
+                                        Some(jbk::reader::MayMissPack::FOUND(Some(r))) => r,
+                                        _ => return Err(format!("content {i} not found")),
+                                    };
+                                    // the tail of the content: the reader has to wait for the background decoder
+                                    let exp = &fx.expected[*i];
+                                    let n = 64.min(exp.len());
+                                    let s = region.get_slice(jbk::Offset::from((exp.len() - n) as u64), n).map_err(|e| format!("get_slice: {e}"))?;
+                                    if s.as_ref() != &exp[exp.len() - n..] {
+                                        return Err(format!("tail of content {i} differs (read from a rayon worker)"));
+                                    }
+                                    Ok(())
+                                })();
+                                r.err()
+                            })
+                            .collect()
+                    });
+                    tallies.lock().unwrap().add("reads_from_rayon_workers", big.len() as u64);
+                    if let Some(e) = errs.into_iter().next() {
+                        let mut f = first_err.lock().unwrap();
+                        if f.is_none() {
+                            *f = Some(e);
+                        }
+                    }
+                }
+            }
             let barrier = Arc::new(Barrier::new(threads));
             std::thread::scope(|s| {
                 for t in 0..threads {
